@@ -138,9 +138,15 @@ OnCb ==
   \* (the callback may run inside the call itself, i.e. before the call has returned)
   /\ Is("ffi_cb") /\ cur # NoCur /\ Ev.r = cur.r
   /\ Ev.n = 1 /\ cur.cbs = 0                                    \* exactly once
-  /\ LET x == ExpectedCb(Ev) IN
-       /\ Ev.which = x.which /\ Ev.error \in x.errs
-       /\ (x.which = "complete" /\ cur.q.fc \in ReadFcs) =>
+  /\ LET x == ExpectedCb(Ev)
+           \* (open in C04: a read reply of the right length whose byte-count field disagrees may also be refused)
+           open == /\ cur.ret = PeOk /\ cur.ev.connected /\ ClientRequestValid(cur.q)
+                   /\ cur.ev.peer \notin {"silence", "close", "badframe"}
+                   /\ ByteCountFieldDisagrees(cur.q, cur.ev.reply)
+       IN
+       /\ \/ Ev.which = x.which /\ Ev.error \in x.errs
+          \/ open /\ Ev.which = "failure" /\ Ev.error \in {ErrBadResponse, ErrBadRequest, ErrInternal}
+       /\ (Ev.which = "complete" /\ cur.q.fc \in ReadFcs) =>
               (Ev.values = x.values /\ Ev.contig /\ Ev.idx0 = cur.q.start)
        \* the timeout passes through unchanged: never earlier than asked for
        /\ (cur.ret = PeOk /\ cur.ev.connected /\ cur.ev.peer = "silence" /\ ClientRequestValid(cur.q)) => Ev.ms >= cur.ev.timeout
